@@ -17,5 +17,10 @@ Theorem C09_redundant_parentheses : forall (o : oracle) (t t' : qt), wfq o t -> 
   exists e k k', steps o k (mk [] [start] (pr t ++ [eof])) = Accept e /\ steps o k' (mk [] [start] (pr t' ++ [eof])) = Accept e.
 Proof. exact same_modulo_parens. Qed.
 
+Theorem C09_redundant_parentheses_same_parse : forall (o : oracle) (t t' : qt), wfq o t -> wfq o t' -> strip t = strip t' ->
+  parse_toks o "" (pr t ++ [eof]) = parse_toks o "" (pr t' ++ [eof]) /\ parse_toks o "" (pr t ++ [eof]) = PTree (want o t).
+Proof. exact same_parse_modulo_parens. Qed.
+
 Print Assumptions C09_keyword_case.
+Print Assumptions C09_redundant_parentheses_same_parse.
 Print Assumptions C09_redundant_parentheses.
